@@ -837,6 +837,18 @@ ComponentNameMap createComponentNamesMap(const ComponentPtr &component);
 void findAndReplaceComponentsCnUnitsNames(const ComponentPtr &component, const std::string &oldName, const std::string &newName);
 
 /**
+ * @brief Replace the units names of the cn elements of a component's math, all at once.
+ *
+ * Every cn element of the math of @p component (children are not visited) whose units attribute
+ * is a key of @p names gets the mapped name. The names are looked up in the math as it was
+ * before the call, so a -> b together with b -> c does not turn a into c.
+ *
+ * @param component The component whose math is edited.
+ * @param names Map of current units name to new units name.
+ */
+void findAndReplaceComponentCnUnitsNames(const ComponentPtr &component, const StringStringMap &names);
+
+/**
  * @brief Return the number of non-comment children.
  *
  * Return the number of non-comment children for the given node.
